@@ -1082,3 +1082,105 @@ def variant_blocks(facts, body, flow, cfg, adt_path, variants):
             if names and names <= frozenset(variants):
                 edges.add((sb, lab))
     return {b for b in cfg.reach if ef.get(b, frozenset()) & edges}
+
+
+# ---- unified switch-source resolution (handles `!x`, `anyhow::__private::not(x)`, copies) ----------
+NOT_FNS = {"anyhow::__private::not", "std::ops::Not::not", "<bool as std::ops::Not>::not"}
+
+
+def switch_chain(body, flow, sb):
+    """-> (kind, payload, bb, flips): what the bool switched on in `sb` is, after stripping negations
+    and copies. kind: 'call' (payload = terminator), 'bin' (payload = rvalue), 'place' (payload = place
+    with field projections), None."""
+    t = body.blocks[sb]["t"]
+    if t["k"] != "switch":
+        return None, None, None, 0
+    op = t["d"]
+    flips = 0
+    for _ in range(24):
+        pl = op_place(op)
+        if pl is None:
+            return None, None, None, flips
+        if any(x.startswith(".") for x in pl[1]) and not all(x == "*" or x.startswith("@") or x == ".0" for x in pl[1]):
+            return "place", pl, None, flips
+        ds = flow.defs.get(pl[0], [])
+        if len(ds) != 1:
+            return None, None, None, flips
+        bi, si, _p, payload = ds[0]
+        if si == "call":
+            key = callee_key(payload["f"])
+            if key in NOT_FNS and payload["args"]:
+                flips ^= 1
+                op = payload["args"][0]
+                continue
+            return "call", payload, bi, flips
+        rv = payload
+        if rv["k"] == "un" and rv["op"] == "Not":
+            flips ^= 1
+            op = rv["a"]
+            continue
+        if rv["k"] == "use":
+            op = rv["a"]
+            continue
+        if rv["k"] == "bin":
+            return "bin", rv, bi, flips
+        return None, None, None, flips
+    return None, None, None, flips
+
+
+def _switch_source_call2(body, flow, sb):
+    k, payload, bi, _f = switch_chain(body, flow, sb)
+    if k == "call":
+        return callee_key(payload["f"]), bi, payload
+    return None
+
+
+def _direct_call_of_switch2(body, flow, sb):
+    r = _switch_source_call2(body, flow, sb)
+    return r[0] if r else None
+
+
+def _switch_bool_labels2(body, flow, cfg, sb):
+    t = body.blocks[sb]["t"]
+    if t["k"] != "switch" or t["dty"] != "bool":
+        return {}
+    _k, _p, _b, flips = switch_chain(body, flow, sb)
+    out = {}
+    listed = {v for v, _ in t["arms"]}
+    for lab, _tgt in cfg.succ[sb]:
+        if lab == 0:
+            val = False
+        elif lab == 1:
+            val = True
+        elif lab == "else":
+            if listed == {0}:
+                val = True
+            elif listed == {1}:
+                val = False
+            else:
+                continue
+        else:
+            continue
+        out[lab] = (not val) if flips else val
+    return out
+
+
+switch_source_call = _switch_source_call2
+direct_call_of_switch = _direct_call_of_switch2
+switch_bool_labels = _switch_bool_labels2
+
+
+def bool_edge_blocks(body, flow, cfg, callee_pred):
+    """(true_blocks, false_blocks): blocks edge-dominated by the true / false outcome of a call
+    satisfying callee_pred whose (possibly negated) result is switched on."""
+    ef = cfg.edge_facts()
+    t_edges, f_edges = set(), set()
+    for sb in cfg.reach:
+        src = switch_source_call(body, flow, sb)
+        if not src or not callee_pred(src[0]):
+            continue
+        for lab, v in switch_bool_labels(body, flow, cfg, sb).items():
+            (t_edges if v else f_edges).add((sb, lab))
+    tb = {b for b in cfg.reach if ef.get(b, frozenset()) & t_edges}
+    fb = {b for b in cfg.reach if ef.get(b, frozenset()) & f_edges}
+    return tb, fb
